@@ -6,7 +6,7 @@ import warnings
 import numpy as np
 from hypothesis import strategies as st
 
-from ..engine import Outcome, dec, enc
+from ..engine import Outcome, dec, enc  # noqa: F401
 
 ID = "C19"
 EXHAUSTIVE = True
@@ -271,3 +271,51 @@ def _near_boundary(k, v):
 
 
 SIGNATURES = {}
+
+
+# ---------------------------------------------------------------------------------------------
+# coverage-guided campaign (atheris / libFuzzer) over the validators, run by vf.cli after the
+# Hypothesis shards; see vf/fuzz/c19_validator.py
+
+
+def fuzz_campaign(tier, seed):
+    """Returns (stats, violations).  Each process gets its own corpus directory under a temporary
+    directory outside /verif, removed afterwards.  libFuzzer campaigns are only approximately
+    reproducible from -seed; the saved failing input is the reproducible unit."""
+    import json as _json
+    import os
+    import shutil
+    import subprocess
+    import sys
+    import tempfile
+
+    nproc, runs = (2, 60000) if tier == "quick" else (12, 3000000)
+    tmp = tempfile.mkdtemp(prefix="c19fuzz-", dir="/tmp")
+    procs = []
+    try:
+        for w in range(nproc):
+            od = os.path.join(tmp, "p%d" % w)
+            os.makedirs(os.path.join(od, "corpus"))
+            cmd = [sys.executable, "-m", "vf.fuzz.c19_validator", od, os.path.join(od, "corpus"),
+                   "-runs=%d" % runs, "-seed=%d" % (seed * 100 + w + 1), "-max_len=256"]
+            procs.append((od, subprocess.Popen(cmd, stdout=subprocess.DEVNULL, stderr=subprocess.PIPE, text=True)))
+        stats = {"engine": "atheris/libFuzzer", "processes": nproc, "executions": 0, "valid": 0, "invalid": 0,
+                 "boundary": 0, "distinct": 0, "samples": []}
+        violations = []
+        for od, pr in procs:
+            _, err = pr.communicate()
+            sp = os.path.join(od, "stats.json")
+            if not os.path.exists(sp):
+                stats.setdefault("errors", []).append((err or "")[-300:])
+                continue
+            st_ = _json.load(open(sp))
+            for k in ("executions", "valid", "invalid", "boundary", "distinct"):
+                stats[k] += st_.get(k, 0)
+            stats["samples"] = (stats["samples"] + st_.get("samples", []))[:5]
+            vd = os.path.join(od, "violations")
+            for fn in sorted(os.listdir(vd)):
+                v = _json.load(open(os.path.join(vd, fn)))
+                violations.append({"bucket": v["bucket"], "msg": v["msg"], "spec": v["spec"], "data": {}})
+        return stats, violations
+    finally:
+        shutil.rmtree(tmp, ignore_errors=True)
